@@ -301,9 +301,11 @@ def worker(argv):
     out["problems"] = problems
     # B: all-enabled batches of the simulation checks, digests per index
     digs = {}
-    for pid in ("C10", "C13", "C11"):
+    for pid in ("C10", "C13", "C11", "C17", "C03"):
         mod = runmod.load(pid)
         k = n if pid != "C11" else max(3, n // 40)
+        if pid == "C17":
+            k = n * 2
         lst = []
         for i in range(k):
             scn = mod.generate(gen.rng_for(seed, "C15:" + pid, i), "quick")
